@@ -17,9 +17,10 @@ kernels they plug in) and the `i64` by-constant kernels (`convolution.rs` of bot
   (`Fft64Avx.caddmulLaneAvx`) → `cnvLimb`, `cnvApply`.  `n < 8` (`m/4 = 0` blocks) writes nothing: not modelled (`err`).
 * `convolution_pairwise_apply_dft(i ≠ j)`: `reim_add` of the two prepared columns on both sides (one `f64` addition per
   component; the sums double the magnitude), then the same convolution → `cnvPairwise`.
-* `convolution_by_const_apply`: exact `i64` wrapping arithmetic on FFT64Ref (`wrapping_mul`, `wrapping_add`); on FFT64Avx
-  `_mm256_mul_epi32` multiplies the **sign-extended low 32 bits** of both operands (`Assumes all inputs fit in i32` in the
-  kernel's doc comment only) → `byConstTerm`, `cnvByConst`.
+* `convolution_by_const_apply`: exact `i64` wrapping arithmetic (`wrapping_mul`, `wrapping_add`) on FFT64Ref and — since
+  patch 34 (`mul_i64_wrapping_avx2`: three `_mm256_mul_epu32`, proved lane-wise equal to `wrapping_mul` in C10,
+  `mul64_lanes_eq_wrapping_mul`) — on FFT64Avx → `byConstTerm`, `cnvByConst`.  The pinned tree used `_mm256_mul_epi32`, which
+  multiplies the sign-extended low 32 bits of both operands: kept as `byConstTermOldLane` (documentation of the repaired defect).
 -/
 
 namespace Fft64Cnv
@@ -106,8 +107,12 @@ def cnvPairwise (o : Ops) (K : Nat) (omg iomg : Array Nat) (resSize cnvOffset si
 /-- sign-extended low 32 bits of an `i64` (`_mm256_mul_epi32` operand; `*b_ptr as i32`) -/
 def lo32 (x : Int) : Int := (x + 2 ^ 31) % 2 ^ 32 - 2 ^ 31
 
-/-- one product of the accumulation: full `wrapping_mul` (reference) or `i32 × i32 → i64` (AVX2) -/
-def byConstTerm (avx : Bool) (a b : Int) : Int := if avx then lo32 a * lo32 b else w64 (a * b)
+/-- the lane product of the FFT64Avx kernels BEFORE patch 34: `i32 × i32 → i64` of the low halves -/
+def byConstTermOldLane (a b : Int) : Int := lo32 a * lo32 b
+
+/-- one product of the accumulation: `wrapping_mul` on both back ends (FFT64Avx: `mul_i64_wrapping_avx2`, the low 64 bits of
+the 64×64 product; the `avx` flag is kept for the driver's interface) -/
+def byConstTerm (_avx : Bool) (a b : Int) : Int := w64 (a * b)
 
 /-- `convolution_by_const_apply` on one column: `a` limbs, constants `b`; every addition wraps to `i64` -/
 def cnvByConst (avx : Bool) (K : Nat) (resSize cnvOffset : Nat) (a : Col) (b : List Int) : Outcome (List (List Int)) :=
